@@ -852,3 +852,61 @@ func IsReturn(n *GNode) (*ast.ReturnStmt, bool) {
 	r, ok := n.Node.(*ast.ReturnStmt)
 	return r, ok
 }
+
+// Infeasible builds an edge predicate from an assumption: assumed(f) tells that fact f is taken to hold. An edge is
+// infeasible when it is the true edge of a conjunction one of whose conjuncts contradicts the assumption, or the false
+// edge of a conjunction (or single atom) *all* of whose conjuncts are assumed. Used for "whenever A and B hold, X must
+// happen" rules: an extra conjunct in the guarding condition keeps the false edge feasible.
+func (g *Graph) Infeasible(assumed func(Fact) bool) func(*GEdge) bool {
+	return func(e *GEdge) bool {
+		if e.Cond == nil {
+			return false
+		}
+		if e.Tag != nil {
+			if e.Taken {
+				return assumed(Fact{X: e.Tag, Y: e.Cond, Pos: false})
+			}
+			return assumed(Fact{X: e.Tag, Y: e.Cond, Pos: true})
+		}
+		var atoms []Fact
+		var flatten func(x ast.Expr, pos bool) bool
+		flatten = func(x ast.Expr, pos bool) bool {
+			x = ast.Unparen(x)
+			switch t := x.(type) {
+			case *ast.UnaryExpr:
+				if t.Op == token.NOT {
+					return flatten(t.X, !pos)
+				}
+			case *ast.BinaryExpr:
+				if t.Op == token.LAND && pos {
+					return flatten(t.X, true) && flatten(t.Y, true)
+				}
+				if t.Op == token.LOR && !pos {
+					return flatten(t.X, false) && flatten(t.Y, false)
+				}
+				if t.Op == token.LAND || t.Op == token.LOR {
+					return false // not a pure conjunction
+				}
+			}
+			atoms = append(atoms, Fact{X: x, Pos: pos})
+			return true
+		}
+		if !flatten(e.Cond, true) {
+			return false
+		}
+		if e.Taken {
+			for _, a := range atoms {
+				if assumed(Fact{X: a.X, Pos: !a.Pos}) {
+					return true
+				}
+			}
+			return false
+		}
+		for _, a := range atoms {
+			if !assumed(a) {
+				return false
+			}
+		}
+		return len(atoms) > 0
+	}
+}
